@@ -51,6 +51,10 @@ class Config:
         # sharded exploration of one harness: paths are partitioned by their first `shard_depth` decisions
         self.shard = kw.get("shard")            # None | (k, n)
         self.shard_depth = kw.get("shard_depth", 48)
+        # "prefix": a shard explores only the paths whose first shard_depth decisions hash to it;
+        # "obligations": every shard walks all paths (cheap feasibility queries) but solves the obligations only of
+        # every n-th path (the expensive part); the skipped ones are assumed, their owner shard checks them
+        self.shard_mode = kw.get("shard_mode", "prefix")
         # opt-in (per obligation): decide the feasibility of sequence-free branch conditions with the LIA abstraction only
         # (sound: a branch is only ever pruned on `unsat`; an infeasible path that survives has a false path condition)
         self.lia_branch = kw.get("lia_branch", False)
@@ -269,7 +273,7 @@ class PathCtx:
 
     def _shard_gate(self):
         sh = self.cfg.shard
-        if sh is None or len(self.decisions) != self.cfg.shard_depth:
+        if sh is None or self.cfg.shard_mode != "prefix" or len(self.decisions) != self.cfg.shard_depth:
             return
         k, n = sh
         bucket = sum((1 << i) for i, d in enumerate(self.decisions) if d) % n
@@ -307,6 +311,8 @@ class PathCtx:
     # ---- obligations
     def check(self, label, term, kind="ensures", detail=""):
         """Obligation: pc => term."""
+        if not getattr(self, "own", True):
+            return True     # obligation-level sharding: another shard solves this path's obligations
         t0 = time.time()
         if term is True:
             self.obls.append(Obl(label, "discharged", backend="trivial", path=list(self.decisions), kind=kind))
@@ -369,6 +375,8 @@ def explore(run_path, cfg: Config):
             results.append(r)
             break
         ctx = PathCtx(prefix, cfg)
+        if cfg.shard is not None and cfg.shard_mode == "obligations":
+            ctx.own = (len(results) % cfg.shard[1]) == cfg.shard[0]
         res = PathResult()
         try:
             run_path(ctx)
@@ -385,8 +393,11 @@ def explore(run_path, cfg: Config):
             res.end = "unsupported:recursion depth"
         res.decisions = list(ctx.decisions)
         res.obls = ctx.obls
-        if cfg.shard is not None and res.end != "other-shard" and len(ctx.decisions) < cfg.shard_depth and cfg.shard[0] != 0:
+        if cfg.shard is not None and cfg.shard_mode == "prefix" and res.end != "other-shard" \
+                and len(ctx.decisions) < cfg.shard_depth and cfg.shard[0] != 0:
             res.end = "other-shard"      # short paths belong to shard 0
+        if cfg.shard is not None and cfg.shard_mode == "obligations" and not getattr(ctx, "own", True) and res.end in ("ok", "infeasible"):
+            res.end = "other-shard"
         if res.end == "other-shard":
             res.obls = []
         res.solver_secs = ctx.solver_secs
